@@ -201,8 +201,8 @@ REGISTRY: dict[str, dict] = {
                      "iteration, plugin dispatch); its iteration order is observed, not predicted"],
     ),
     "C14": dict(
-        modules=["C15", "C03", "C14Full"],
-        theorems=[T + "C14_triples_sink", T + "C14_quads_sink", T + "C14_statements_unaffected", T + "C14_no_namespace_rows_when_off", T + "C14_version_two_iff_enabled", T + "C14_no_bindings_same_rows",
+        modules=["C15", "C03", "C14Full", "TranslatedStmt", "TranslatedStream"],
+        theorems=[T + "Translated.stream_namespace_declaration_eq", T + "Translated.encode_namespace_declaration_eq", T + "Translated.encode_iri_app", T + "C14_triples_sink", T + "C14_quads_sink", T + "C14_statements_unaffected", T + "C14_no_namespace_rows_when_off", T + "C14_version_two_iff_enabled", T + "C14_no_bindings_same_rows",
                   T + "C14_namespace_row_decoding", T + "namespace_run"],
         rule="generic sinks with 0..5 bindings (empty prefix, IRIs with and without separators, non-ASCII, re-bound prefixes) x "
              "statements x 3 stream classes x presets down to 8/1/1 (declarations evict statement entries): Prefix events == "
